@@ -334,3 +334,70 @@ func VP_C11_OwnAnswers() {
 	vpAssert("sched: each-caller-gets-its-own-answer", ok1 && !ok2)
 	vpCover("end")
 }
+
+// VP_C10_RemoteMasterStalls: remote upgrade mode with a master that accepts every request and
+// never answers: logins of an upgradeable user keep being answered, however many there are
+// (more than every queue and rate-limit slot on the way holds).
+func VP_C10_RemoteMasterStalls() {
+	url := vpRemoteURL()
+	vpRemoteStalls = true
+	vpMaster = nil
+	_, st, _, _ := vpAgent(2, url)
+	n := 45
+	for i := 0; i < n; i++ {
+		done := make(chan bool, 1)
+		go func() {
+			ok, _, _, _ := st.Authenticate("u", "old")
+			done <- ok
+		}()
+		vpAssert("login-answered-while-the-master-stalls", vpAwait(done))
+	}
+	ok := make(chan bool, 1)
+	go func() { st.Check(); ok <- true }()
+	vpAssert("agent-still-serves-other-requests", vpAwait(ok))
+	vpCover("end")
+}
+
+// VP_C10_HooksBurstThenManyChanges: with a hooks directory configured, a burst of changes inside
+// one rate-limit window, the window's expiry, and then more changes than the notification queue
+// holds: every change is answered.
+func VP_C10_HooksBurstThenManyChanges() {
+	if !vpSymbolic() {
+		return // the rate limit is 5 s of real time natively; the timer is driven by the engine here
+	}
+	base, cfg := vpAgentDir(1)
+	_ = base
+	vpSeedUser(cfg, "root", "rootpw", true)
+	vpSeedUser(cfg, "u", "old", false)
+	dir := filepath.Join(filepath.Dir(cfg), "hooks")
+	os.Mkdir(dir, 0755)
+	os.WriteFile(filepath.Join(dir, "hook"), []byte("#!/bin/sh\n"), 0755)
+	vpHookBehaviour(0)
+	s, err := NewStore(cfg, "", "", "", dir)
+	if err != nil {
+		panic("setup: " + err.Error())
+	}
+	st := s.GetInterface()
+	change := func(i int) bool {
+		done := make(chan bool, 1)
+		go func() { st.SetAdmin("u", i%2 == 0); done <- true }()
+		return vpAwait(done)
+	}
+	burst := 1 + vpChoose("burst", 3)
+	for i := 0; i < burst; i++ {
+		vpAssert("model: change-in-the-burst-answered", change(i))
+	}
+	vpSettle()
+	if vpChoose("window-expires", 2) == 1 {
+		vpFireTimers()
+		vpSettle()
+	}
+	for i := 0; i < 40; i++ {
+		vpAssert("model: later-change-answered", change(i))
+		if i%8 == 7 && vpChoose("expiry-in-between", 2) == 1 {
+			vpFireTimers()
+			vpSettle()
+		}
+	}
+	vpCover("end")
+}
